@@ -382,7 +382,8 @@ def build_native(job, tier):
     cfg = gen_config(os.path.join(cachedir, "cfg"))
     hsrc = os.path.join(VERIF, "harness", job["harness"])
     os.makedirs(cachedir, exist_ok=True)
-    key = sha(open(hsrc, "rb").read().decode() + repr(sorted(job.get("defines", []))) + repr(job.get("units")) + run_pregen(job, cachedir, cfg))
+    key = sha(open(hsrc, "rb").read().decode() + repr(sorted(job.get("defines", []))) + repr(job.get("units")) + run_pregen(job, cachedir, cfg) +
+              (repr(job.get("native_flags")) if job.get("native_flags") else ""))
     nd = os.path.join(cachedir, "native-%s-%s" % (job["name"], key))
     exe = os.path.join(nd, "replay")
     with _native_lock:
@@ -392,7 +393,7 @@ def build_native(job, tier):
         objs = []
         inc = ["-I" + SRC, "-I" + cfg, "-I" + os.path.join(VERIF, "harness")]
         fl = ["-std=c++17", "-O1", "-g", "-fno-omit-frame-pointer", "-fsanitize=address,undefined", "-fno-sanitize-recover=undefined",
-              "-DNDEBUG", "-DOVM_VERIF", "-DV_NATIVE", "-w"]
+              "-DNDEBUG", "-DOVM_VERIF", "-DV_NATIVE", "-w"] + list(job.get("native_flags", []))   # optional job key: extra g++ flags of the replay build
         srcs = [os.path.join(SRC, "OpenVolumeMesh", u) for u in job.get("units", [])] + [hsrc, os.path.join(VERIF, "rt", "rt_native.cpp")]
         def cc(s):
             o = os.path.join(nd, sha(s) + ".o")
